@@ -2,6 +2,8 @@ import OnetVerif.Model.C13
 import OnetVerif.Gen.C13
 import OnetVerif.Gen.C13K
 import OnetVerif.Props.C13
+import OnetVerif.Proofs.C13SvcGen
+import OnetVerif.Proofs.C13VisitGen
 /-! Property C13 — the definitions regenerated from the Go source (`Gen/C13.lean`, written by `harness/cmd/go2lean`
 on every check run from `messages.go`, `protocol.go`, `tree.go`, `service.go`, `network/encoding.go`) equal the
 hand-written pre-images of `Model/C13.lean`.  `Gen.C13.Token` is the Go struct field by field (every id a
@@ -270,4 +272,72 @@ theorem c13_gen_NewTree_id (H : HashFns) (d : Int) (ro : Gen.C13.Roster) (root :
 example : let n (k : Nat) (ch : List Gen.C13.TreeNode) : Gen.C13.TreeNode := ⟨⟨[k], []⟩, ch⟩
     forestOfNode (n 10 [n 11 [n 12 [], n 13 []]]) .nil = wT1 ∧ forestOfNode (n 10 [n 11 [n 12 []], n 13 []]) .nil = wT2 := by
   constructor <;> rfl
+/-! ### the service factory's look-ups, regenerated (round 7, b7-xlat)
+
+`Gen/C13Svc.lean`: `serviceFactory.ServiceID`, `Name`, `Suite`, `SuiteByID`, `RegisteredServiceNames`, `registeredServiceIDs` whole;
+`Unregister` as its three pieces (the search loop with `break`, the not-found test, the removal by two slices and `append`).
+Proofs: `Proofs/C13SvcGen.lean` (`SvcGen.regOf` reads the translated factory as the model's registry). -/
+
+/-- `serviceFactory.ServiceID` as regenerated = `svcLookupId` (the id of the first entry with that name, else the nil id) -/
+theorem c13_gen_svc_ServiceID_eq (s : Gen.C13Svc.serviceFactory) (name : Bytes) :
+    Gen.C13Svc.serviceFactory_ServiceID s name = svcLookupId (SvcGen.regOf s) name := SvcGen.ServiceID_eq s name
+
+/-- `serviceFactory.Name` as regenerated = `svcLookupName` -/
+theorem c13_gen_svc_Name_eq (s : Gen.C13Svc.serviceFactory) (id : Bytes) :
+    Gen.C13Svc.serviceFactory_Name s id = svcLookupName (SvcGen.regOf s) id := SvcGen.Name_eq s id
+
+/-- `serviceFactory.SuiteByID` as regenerated = `svcLookupSuite` (Go's nil for "no entry" and for "default suite" alike) -/
+theorem c13_gen_svc_SuiteByID_eq (s : Gen.C13Svc.serviceFactory) (id : Bytes) :
+    Gen.C13Svc.serviceFactory_SuiteByID s id = (svcLookupSuite (SvcGen.regOf s) id).getD none := SvcGen.SuiteByID_eq s id
+
+/-- `RegisteredServiceNames` / `registeredServiceIDs` as regenerated: names / ids in registration order -/
+theorem c13_gen_svc_names_ids_eq (s : Gen.C13Svc.serviceFactory) :
+    Gen.C13Svc.serviceFactory_RegisteredServiceNames s = (SvcGen.regOf s).map (·.name) ∧
+    Gen.C13Svc.serviceFactory_registeredServiceIDs s = (SvcGen.regOf s).map (·.id) := SvcGen.names_ids_eq s
+
+/-- **`serviceFactory.Unregister` as its three regenerated pieces = `svcUnregister`**: an error exactly when no entry has the name,
+otherwise the FIRST such entry is removed (the `break`), never a slice panic.  Falsified by: no `break` (last match:
+mutant `C13_unregister_last_match`), `index+1` dropped, `index <= 0`. -/
+theorem c13_gen_svc_Unregister_eq (s : Gen.C13Svc.serviceFactory) (name : Bytes) :
+    (let i := Gen.C13Svc.Unregister_index s name (-1)
+     if Gen.C13Svc.Unregister_notFound i then some none
+     else (Gen.C13Svc.Unregister_rest s i).map fun l => some (l.map SvcGen.entryOf)) =
+    some (svcUnregister (SvcGen.regOf s) name) := SvcGen.Unregister_eq s name
+
+/-! ### `TreeNode.Visit` itself, regenerated (round 7, b7-xlat)
+
+`Gen.C13.TreeNode_Visit` (function flag `"callback"`: generic in the state the callback threads; fuel for the recursion).
+`Proofs/C13VisitGen.lean`: it is the callback folded over the pre-order walk `VisitGen.walkNode`, for every fuel of at least the
+height of the tree. -/
+
+/-- `TreeNode.Visit` as regenerated = the callback folded over the pre-order walk (node, then every child in order, depth + 1) -/
+theorem c13_gen_Visit_eq (H : HashFns) {σ : Type} (fn : σ → Int → Gen.C13.TreeNode → σ) (fuel : Nat) (t : Gen.C13.TreeNode)
+    (d : Int) (st : σ) (h : VisitGen.heightNode t ≤ fuel) :
+    Gen.C13.TreeNode_Visit H fuel t d fn st = some ((VisitGen.walkNode d t).foldl (fun s p => fn s p.1 p.2) st) :=
+  VisitGen.Visit_eq H fn fuel t d st h
+
+mutual
+private theorem walk_node {σ : Type} (g : σ → Int → Gen.C13.TreeNode → σ) (hg : ∀ s d d' n, g s d n = g s d' n) (d d0 : Int) :
+    ∀ (t : Gen.C13.TreeNode) (st : σ), (VisitGen.walkNode d t).foldl (fun s p => g s p.1 p.2) st = (visitNode t).foldl (fun s n => g s d0 n) st
+  | ⟨si, ch⟩, st => by
+    simp only [VisitGen.walkNode, visitNode, List.foldl_cons]
+    rw [hg st d d0, walk_list g hg (d + 1) d0 ch]
+private theorem walk_list {σ : Type} (g : σ → Int → Gen.C13.TreeNode → σ) (hg : ∀ s d d' n, g s d n = g s d' n) (d d0 : Int) :
+    ∀ (ts : List Gen.C13.TreeNode) (st : σ), (VisitGen.walkList d ts).foldl (fun s p => g s p.1 p.2) st = (visitList ts).foldl (fun s n => g s d0 n) st
+  | [], st => by simp [VisitGen.walkList, visitList]
+  | c :: r, st => by
+    simp only [VisitGen.walkList, visitList, List.foldl_append]
+    rw [walk_node g hg d d0 c, walk_list g hg d d0 r]
+end
+
+/-- **`NewTree`'s walk as the code runs it — the regenerated `Visit` driving the regenerated closure from depth 0 — feeds the hash
+with `dfs`** -/
+theorem c13_gen_NewTree_walk (H : HashFns) (fuel : Nat) (root : Gen.C13.TreeNode) (hf : VisitGen.heightNode root ≤ fuel) :
+    Gen.C13.TreeNode_Visit H fuel root 0 (fun h d tn => Gen.C13.NewTree_visit H h d tn) [] = some (dfs (forestOfNode root .nil)) := by
+  rw [VisitGen.Visit_eq H _ fuel root 0 [] hf]
+  have hg : ∀ (s : Bytes) (d d' : Int) (n : Gen.C13.TreeNode), Gen.C13.NewTree_visit H s d n = Gen.C13.NewTree_visit H s d' n := by
+    intro s d d' n; rfl
+  rw [walk_node (fun h d tn => Gen.C13.NewTree_visit H h d tn) hg 0 0 root []]
+  rw [c13_gen_NewTree_visit_dfs]; simp
+
 end C13
